@@ -91,6 +91,11 @@ def w_family(acc, name, n):
     acc.run("family", o_family, {"family": name, "n": n}, True)
 
 
+def w_lengths(acc, name, lo, hi):
+    for n in range(lo, hi):
+        acc.run("family", o_family, {"family": name, "n": n}, True)
+
+
 def w_fuzz(acc, runs, seed):
     """Coverage-guided engine (atheris/libFuzzer) on bytes -> utf-8 -> parse_string -> tiling/line oracle -> write_string.
     The corpus it builds and any crash are re-run through the plain oracle before anything is recorded."""
@@ -110,6 +115,9 @@ def run(chk):
     for n in scales:
         for name, _ in splitinputs.scaled_families(1):
             tasks.append(("w_family", (name, n)))
+    for name, _ in splitinputs.LENGTH_FAMILIES:
+        tasks.append(("w_lengths", (name, 1, 151)))
+        tasks.append(("w_lengths", (name, 151, 301 if quick else 1025)))
     tasks.append(("w_fuzz", (150000 if quick else 5000000, chk.seed)))
     tasks += [("w_sigma", t) for t in tokens.seq_tasks(tokens.SIGMA_S, L)]
     for fr in splitinputs.FRAMES_S:
